@@ -65,6 +65,9 @@ func genOpts(t *rapid.T, label string) []opt.Spec {
 			out = append(out, opt.Spec{Name: "DefaultOptionsV2"})
 		case 2:
 			out = append(out, opt.Spec{Name: rapid.SampledFrom([]string{"WithIndent", "WithIndentPrefix"}).Draw(t, label+"ind"), S: rapid.SampledFrom([]string{"", " ", "\t", "  \t"}).Draw(t, label+"inds")})
+		case 3:
+			// each whitespace option alone: the un-write and flush logic looks at the bytes before a member
+			out = append(out, opt.Spec{Name: rapid.SampledFrom([]string{"SpaceAfterColon", "SpaceAfterComma", "SpaceAfterComma", "Multiline"}).Draw(t, label+"ws"), B: rapid.IntRange(0, 3).Draw(t, label+"val") != 0})
 		default:
 			out = append(out, opt.Spec{Name: rapid.SampledFrom(marshalOptNames).Draw(t, label+"name"), B: rapid.IntRange(0, 3).Draw(t, label+"val") != 0})
 		}
